@@ -355,11 +355,32 @@ def _with_descriptions(rows, seed):
     return out
 
 
+def _with_ref_types(rows, d, seed):
+    """the same rows, but the referential attributes carry a data type OF THEIR OWN across R114 (any type of the model:
+    string, an enumeration, a user type, an unsupported one) instead of same_as<Base_Attribute>, as after an import or a
+    retype of the referential attribute.  The own type of a referential attribute is no part of the diagram: it is typed
+    by the attribute it refers to."""
+    import random
+    rnd = random.Random(seed)
+    ids = [t['id'] for t in d['dts']]
+    col = [c[0] for c in tables()['O_ATTR']].index('DT_ID')
+    refs = {(a['id'], c['id']) for c in d['classes'] for a in c['attrs'] if a['kind'][0] == 'ref'}
+    out = []
+    for t, v in rows:
+        if t == 'O_ATTR' and (v[0], v[1]) in refs and rnd.random() < 0.8:
+            v = list(v)
+            v[col] = rnd.choice(ids)
+        out.append((t, v))
+    return out
+
+
 def encode(d, rng=None):
     """the .xtuml text of a diagram; the INSERT statements are shuffled when an rng is given"""
     rows = rows_of(d)
     if d.get('descr') is not None:
         rows = _with_descriptions(rows, d['descr'])
+    if d.get('ref_types') is not None:
+        rows = _with_ref_types(rows, d, d['ref_types'])
     texts = [_row_text(t, v) for t, v in rows]
     if rng is not None:
         # the order of the R_PART rows of ONE relationship is part of the diagram ('rows': an unformalised simple
@@ -1450,6 +1471,11 @@ def gen_diagram(rng, max_classes=5, special_names=False, ensure_bare=False, ensu
         else:
             kind = ['derived']
             where_ = rng.choice(cl)
+        if kind[0] in ('simple', 'linked') and kind[1][0] == kind[2][0] and rng.random() < 0.35:
+            # a reflexive relationship with a phrase at ONE end only (seldom: at neither end)
+            kind[rng.choice([1, 2])][3] = ''
+            if rng.random() < 0.15:
+                kind[1][3] = kind[2][3] = ''
         par = where_['parent'] if rng.random() < 0.85 else some_parent()
         d['rels'].append({'id': nid(), 'numb': numbs[i], 'kind': kind, 'parent': par})
         # later identifiers may contain referential attributes (chains of referentials)
@@ -1581,7 +1607,10 @@ def gen_edit(rng, d, comp, kinds=None):
                 if new.upper() in used:
                     continue
                 return [k, c['id'], a['id'], new]
-            if a['kind'][0] == 'ref' or not py_dt_type(d, a['kind'][1]):
+            if a['kind'][0] == 'ref':
+                # the own R114 type of a referential attribute (any type): must not change anything
+                return [k, c['id'], a['id'], rng.choice(d['dts'])['id']]
+            if not py_dt_type(d, a['kind'][1]):
                 continue
             sup = [t for t in d['dts'] if py_dt_type(d, t['id'])]
             return [k, c['id'], a['id'], rng.choice(sup)['id']]
@@ -1594,6 +1623,9 @@ def gen_edit(rng, d, comp, kinds=None):
             return [k, r['id'], None if p is None else ['comp' if p['comp'] else 'pkg', p['id']]]
         sel = rng.choice(['form', 'part'] if r['kind'][0] == 'simple' else ['one', 'oth'])
         if k == 'phrase':
+            refl = r['kind'][1][0] == r['kind'][2][0]
+            if rng.random() < (0.4 if refl else 0.1):
+                return [k, r['id'], sel, '']            # clearing one phrase
             return [k, r['id'], sel, rng.choice(PHRASES) + ' %d' % rng.randint(100, 999)]
         cur = r['kind'][END_INDEX[r['kind'][0]][sel]][1 if k == 'mult' else 2]
         return [k, r['id'], sel, (not cur) if rng.random() < 0.8 else cur]
@@ -1894,6 +1926,11 @@ def gen_xedit(rng, d, fresh):
             if e is not None:
                 return e
         elif k == 'retype':
+            refs = [(c, a) for c in d['classes'] for a in c['attrs'] if a['kind'][0] == 'ref']
+            if refs and rng.random() < 0.35:
+                # the own R114 type of a referential attribute (any type of the model): the declaration must not move
+                c, a = rng.choice(refs)
+                return ['retype', c['id'], a['id'], rng.choice(d['dts'])['id']]
             cands = [(c, a) for c in d['classes'] for a in c['attrs']
                      if a['kind'][0] != 'ref' and py_base_type_name(d, a['kind'][1])]
             sup = [t for t in d['dts'] if py_base_type_name(d, t['id'])]
